@@ -208,6 +208,8 @@ class C18(object):
                     for key in ('second_market',):
                         c[key] = None
                 regs[0]['cap'] = regs[0].get('cap') or {'ai': 0.6, 'af': 0.2}
+                # ... and the second economy's currency is spelled like the first one's, in lower case: another currency
+                spec['zones'][1]['cur'] = spec['zones'][0]['cur'].lower()
                 for c in regs[1:]:
                     c['cap'] = None
                 spec['imports'] = [i for i in spec['imports'] if i['supplier'] not in [c['key'] for c in regs]]
